@@ -28,6 +28,8 @@ mod replication_fetcher;
 pub mod target_arch;
 mod transactions;
 mod transport;
+#[cfg(maidsafe_safe_network_verif)]
+pub mod verif_hooks;
 
 use cmd::LocalSwarmCmd;
 use xor_name::XorName;
